@@ -153,3 +153,18 @@ pub mod verif_kani {
         assert!(ok, "C03 PRECALCULATED_XOR_HASH == SHA1(N) xor SHA1([7])");
     }
 }
+
+// C03: the closed term PRECALCULATED_XOR_HASH == SHA1(N) xor SHA1([7]) evaluated by executing the crate's real SHA-1 natively.
+// (A single point, no quantifier: execution decides it. Kani evaluates the same term with a software SHA-1 but returned a
+// different byte 16 for this input - a discrepancy of the model checker noted in DESIGN.md - so execution is used instead.)
+#[cfg(all(test, gtker_wow_srp_verif))]
+mod verif_search {
+    use super::*;
+    #[test]
+    fn verif_search_c03_precalculated_xor_hash() {
+        let r = calculate_xor_hash(&LargeSafePrime::default(), &Generator::default());
+        println!("REPLAY c03_precalculated_xor_hash computed={:02x?} constant={:02x?}", r.as_le_bytes(), PRECALCULATED_XOR_HASH);
+        if *r.as_le_bytes() != PRECALCULATED_XOR_HASH { println!("REPLAY-FAIL c03_precalculated_xor_hash"); return; }
+        println!("REPLAY-STATS c03_precalculated_xor_hash inputs=1 all-ok");
+    }
+}
